@@ -216,6 +216,22 @@ def rule_default_filter(ctx: Ctx, repo: Repo) -> None:
         ctx.check("MONKEYTYPE_TRACE_MODULES" in sc.env_reads, "R-C17.3", f.fq, "the allow-list comes from MONKEYTYPE_TRACE_MODULES",
                   construct=f"environment reads {sorted(set(sc.env_reads))}")
     ctx.floor("R-C17.3", "code objects x allow-lists decided for default_code_filter", n, 100)
+    # histories: the verdict is about the code object's own file also after an equal code object of another file was asked
+    # about (CPython: code objects compare equal when they differ only in co_filename - the same function text at the same
+    # lines of a vendored copy, a generated module, an installed and a checked-out copy of one package)
+    pairs = [("/py/site/requests/api.py", "/home/u/app/pkg/mod.py"), ("/home/u/app/pkg/mod.py", "/py/stdlib/json/decoder.py"), ("/home/u/app/main.py", "/link/requests/api.py")]
+    nh = 0
+    for first, second in pairs:
+        sc = PM.FilterScenario(repo, None)
+        k1, v1, st1 = sc.verdict_as_called(first)
+        sc2 = PM.FilterScenario(repo, None)
+        k2, v2, _ = sc2.verdict_as_called(second, carry=st1)
+        nh += 1
+        ctx.check(k2 == "value" and v2 is PM.oracle(second, None), "R-C17.3", f.fq,
+                  "the verdict for a code object is about its own file, also right after an equal code object (same text, same lines) of another file was judged",
+                  construct="the verdict is remembered per code object, and code objects of different files compare equal",
+                  history=f"default_code_filter(code of {first}) then (code of {second}, equal but not identical): {k2} {v2}, expected {PM.oracle(second, None)}")
+    ctx.floor("R-C17.3", "two-call histories of default_code_filter", nh, 3)
     ctx.note(f"LIB_PATHS in the abstract world: {roots_seen}")
     # the filter the default configuration ships
     dc = repo.cls("monkeytype.config", "DefaultConfig")
